@@ -20,7 +20,7 @@ def main():
     mod = importlib.import_module(f"harness.{prop.lower()}")
     run = vcore.Run(prop, a.tier, seed)
     try:
-        vcore.ensure_static_build()
+        vcore.ensure_static_build(getattr(mod, "STATIC", None))
         if a.replay:
             data = json.load(open(a.replay))
             rc = mod.replay(run, data)
